@@ -254,7 +254,7 @@ def validate (z : Zone) : P Unit :=
         | some t => (.ok t : P Ltt)
         | none => .panic) >>= fun last_ltt =>
       unix_leap_time_to_unix_time z.leaps last.time >>= fun unix_time =>
-      rule.find_local_time_type unix_time >>= fun rule_ltt =>
+      rule.find_ltt_for_validate unix_time >>= fun rule_ltt =>
       if last_ltt.off == rule_ltt.off && last_ltt.dst == rule_ltt.dst && nameEq last_ltt.name rule_ltt.name
       then .ok () else .err
     | _, _ => .ok ()
